@@ -16,7 +16,10 @@ fn inputs_for(env: &Env, rng: &mut Rng, j: usize) -> String {
 
 /// Phase A: static / fresh / long-lived x argument forms
 fn phase_a_one(ll: &LongLived, s: &str, other: &str, rec: &mut Rec) {
-    for p in ALL_PROF {
+    // the order of the profiles rotates with the input, so that every profile is called right after every other
+    let rot = s.len() % 4;
+    let order = [ALL_PROF[rot], ALL_PROF[(rot + 3) % 4], ALL_PROF[(rot + 1) % 4], ALL_PROF[(rot + 2) % 4]];
+    for p in order {
         for enforce in [false, true] {
             let base = api::fresh_call(p, enforce, s, ArgForm::Str);
             rec.eval();
@@ -111,7 +114,7 @@ fn phases_bc(env: &Env, rec: &mut Rec) {
     let mut rng = Rng::stream(env.seed, 0x16_0000);
     // input list: generated + same-length / same-prefix neighbours (what a wrongly keyed cache would confuse)
     let mut inputs: Vec<String> = Vec::new();
-    for j in 0..env.n(60, 200) {
+    for j in 0..env.n(120, 400) {
         let s = inputs_for(env, &mut rng, j);
         if s.chars().count() <= 40 {
             inputs.push(s);
@@ -130,11 +133,31 @@ fn phases_bc(env: &Env, rec: &mut Rec) {
         .collect();
     inputs.extend(extra);
     inputs.extend(["".to_string(), "Alice".into(), "alice".into(), "ALICE".into(), "alic\u{0}".into(), "\u{FF21}lice".into()]);
+    // long inputs (memo thresholds) and inputs that differ in one code point only
+    {
+        let p = env.pools();
+        let mut longs = Vec::new();
+        super::hostile::drive(&mut rng, env.n(12, 60), 256, |rng| { let j = rng.below(12); let s = inputs_for(env, rng, j); s.chars().take(5).collect() }, |s| {
+            if s.len() < 2000 {
+                longs.push(s.to_string())
+            }
+        });
+        longs.push("Guybrush Threepwood, Mighty Pirate \u{FB01}rst class".to_string());
+        longs.push(format!("{}{}", "Correct Horse Battery Staple ".repeat(2), crate::gen::SPECIAL_WORDS[1]));
+        let _ = p;
+        inputs.extend(longs);
+    }
     let mut cases = Vec::new();
     for (i, a) in inputs.iter().enumerate() {
+        // compare operands related to a: itself, its lowercase, an unrelated input
+        let b = match i % 3 {
+            0 => a.clone(),
+            1 => crate::refmodel::lower(a),
+            _ => inputs[(i * 7 + 3) % inputs.len()].clone(),
+        };
         for p in rawfmt::PROFILES {
             for op in rawfmt::OPS {
-                cases.push(Case { op, profile: p, a: a.clone(), b: inputs[(i * 7 + 3) % inputs.len()].clone() });
+                cases.push(Case { op, profile: p, a: a.clone(), b: b.clone() });
             }
         }
     }
@@ -232,16 +255,89 @@ fn phases_bc(env: &Env, rec: &mut Rec) {
         }
     };
     // Phase B: single thread, many permutations of the same list, interleaved profiles and failing inputs
-    let nb = env.n(6, 60);
+    let nb = env.n(10, 100);
     for k in 0..nb {
         run_child(1, 3, env.seed.wrapping_mul(31).wrapping_add(k as u64), "B", rec);
     }
     // Phase C: many threads from the very first call
-    let nc = env.n(10, 300);
+    let nc = env.n(24, 600);
     for k in 0..nc {
         let threads = [16usize, 32, 64, 16][k % 4];
         run_child(threads, 1 + k % 2, env.seed.wrapping_mul(131).wrapping_add(k as u64), "C", rec);
     }
+    // Phase D ("hammer"): few inputs, many rounds, many threads. The inputs come in pairs that differ in one
+    // code point only, where the two code points are congruent modulo 64 / 256 / 1024 / 4096 / 65536 but have
+    // different derived properties - what a small direct-mapped shared table updated without a lock would tear.
+    let hf = env.out_dir.join(format!("{}-hammer.tsv", tag));
+    let hb = env.out_dir.join(format!("{}-hammer-baseline.txt", tag));
+    let abs = &env.pools().abs;
+    let mut hammer: Vec<Case> = Vec::new();
+    for (k, m) in [64u32, 256, 1024, 4096, 65536].iter().enumerate() {
+        // a PVALID letter v and a not-valid w = v + j*m
+        let mut found = 0;
+        let mut v = 0x61u32 + (env.seed as u32 % 20);
+        while found < 2 && v < 0x3000 {
+            let ok = |c: u32| (c as usize) < crate::ucd::NCP && abs[c as usize] == crate::refmodel::Abs::PValid;
+            if ok(v) {
+                if let Some(w) = (1..40u32).map(|j| v + j * m).chain((1..2u32).map(|j| v.wrapping_sub(j * m))).find(|w| {
+                    (*w as usize) < crate::ucd::NCP && char::from_u32(*w).is_some() && matches!(abs[*w as usize], crate::refmodel::Abs::IdDisOrFreePval | crate::refmodel::Abs::Disallowed)
+                }) {
+                    let (cv, cw) = (char::from_u32(v).unwrap(), char::from_u32(w).unwrap());
+                    for (a, b) in [(format!("guy{}brush", cv), format!("guy{}brush", cw)), (format!("{}x", cw), format!("{}x", cv))] {
+                        for p in rawfmt::PROFILES {
+                            hammer.push(Case { op: if k % 2 == 0 { "prepare" } else { "enforce" }, profile: p, a: a.clone(), b: b.clone() });
+                            hammer.push(Case { op: "enforce", profile: p, a: b.clone(), b: a.clone() });
+                        }
+                    }
+                    found += 1;
+                }
+            }
+            v += 37;
+        }
+    }
+    if write_cases(&hf, &hammer) {
+        let ok = Command::new(&racer).args(["baseline", "--cases"]).arg(&hf).arg("--out").arg(&hb).output().map(|o| o.status.success()).unwrap_or(false);
+        if ok {
+            let (cf2, bf2) = (cf.clone(), bf.clone());
+            let _ = (cf2, bf2);
+            let nh = env.n(6, 100);
+            for k in 0..nh {
+                let threads = [8usize, 16, 32][k % 3];
+                let out = Command::new(&racer)
+                    .args(["run", "--cases"])
+                    .arg(&hf)
+                    .arg("--expect")
+                    .arg(&hb)
+                    .args(["--threads", &threads.to_string(), "--rounds", "40", "--seed", &(env.seed.wrapping_mul(977).wrapping_add(k as u64)).to_string()])
+                    .output();
+                if let Ok(o) = out {
+                    let text = String::from_utf8_lossy(&o.stdout).to_string();
+                    for l in text.lines() {
+                        if let Some(m) = l.strip_prefix("MISMATCH ") {
+                            rec.violation(
+                                "result-depends-on-concurrent-callers",
+                                Witness {
+                                    op: format!("static call in phase D (hammer, threads={})", threads),
+                                    case: m.to_string(),
+                                    expected: m.split(" expected=").nth(1).and_then(|x| x.split(" observed=").next()).unwrap_or("").to_string(),
+                                    observed: m.split(" observed=").nth(1).unwrap_or("").to_string(),
+                                },
+                            );
+                        } else if l.starts_with("RACER ") {
+                            let calls = l.split_whitespace().find_map(|w| w.strip_prefix("calls=")).and_then(|v| v.parse::<u64>().ok()).unwrap_or(0);
+                            total_calls += calls;
+                            rec.evals(calls);
+                            rec.nontrivial("phaseD:hammer-process", &(threads, k, "D"), || l.to_string());
+                        }
+                    }
+                }
+            }
+        } else {
+            rec.note("HARNESS-ERROR: hammer baseline child failed");
+        }
+    }
+    let _ = std::fs::remove_file(&hf);
+    let _ = std::fs::remove_file(&hb);
     rec.count_n("phaseBC:calls-in-child-processes", total_calls);
     rec.count_n("phaseC:sum-of-threads-overlapping-the-first-call", overlap_sum);
     rec.count_n("phaseC:max-threads-overlapping-the-first-call-in-one-process", overlap_max);
@@ -255,7 +351,7 @@ fn phases_bc(env: &Env, rec: &mut Rec) {
 pub fn run(env: &Env) -> Rec {
     let mut rec = Rec::new();
     // Phase A on generated inputs, in parallel threads of this process (shared statics, long-lived instances per thread)
-    let n = env.n(20_000, 600_000);
+    let n = env.n(100_000, 3_000_000);
     let per = 500usize;
     let ra = par(n.div_ceil(per), |c, rec| {
         let mut rng = Rng::stream(env.seed, 0x16_8000 + c as u64);
@@ -268,6 +364,14 @@ pub fn run(env: &Env) -> Rec {
         }
     });
     rec.merge(ra);
+    let n_long = env.n(1_500, 60_000);
+    let per = 100usize;
+    let ra2 = par(n_long.div_ceil(per), |c, rec| {
+        let mut rng = Rng::stream(env.seed, 0x16_C000 + c as u64);
+        let ll = LongLived::new();
+        super::hostile::drive(&mut rng, per, 65536, |rng| { let j = rng.below(12); let s = inputs_for(env, rng, j); s.chars().take(5).collect() }, |s| phase_a_one(&ll, s, "x", rec));
+    });
+    rec.merge(ra2);
     // deterministic corpus: words on which string-level (context-sensitive) case mapping differs from the
     // per-character one, alone, with a width-mapped neighbour, and with spaces (forces the owned paths)
     let ll = LongLived::new();
